@@ -7,8 +7,10 @@
 (*   processing loop --> commit log --ack over NATS--> api server --> pub   *)
 (*                                                                         *)
 (* Abstract state                                                          *)
-(*   cfg   = [occ, batch]  stream has concurrency control; server           *)
-(*           batch.max.messages                                             *)
+(*   cfg   = [occ, batch, path]  stream has concurrency control; server     *)
+(*           batch.max.messages; API path of the publishers: "async"        *)
+(*           (PublishAsync stream, sends are pipelined) | "sync" (unary     *)
+(*           Publish RPC: one outstanding publish per publisher)            *)
 (*   msgs  = every publish issued so far, in send order; msgs[id] =         *)
 (*           [p, exp, pol, sendT, ackT, res, off]                           *)
 (*             p     publisher                                              *)
@@ -27,6 +29,10 @@
 (*   ackq  = answers on their way back to the publisher                     *)
 (*   clk   = logical clock of the publishers' side (one process)            *)
 (*   known = publisher -> the log end (next offset) it believes in          *)
+(*   paused = the partition is paused (PauseStream: leader loop stopped,    *)
+(*           commit log closed); the next publish that passes the API       *)
+(*           preconditions resumes it (api.go resumeStream) before it is    *)
+(*           sent to NATS                                                   *)
 (*                                                                         *)
 (* Two kinds of formulas:                                                  *)
 (*   Do<Action>      the step exactly as the code performs it               *)
@@ -41,8 +47,8 @@ EXTENDS Integers, Sequences, FiniteSets
 
 CONSTANTS Pubs
 
-VARIABLES cfg, msgs, net, chan, log, ackq, clk, known
-vars == <<cfg, msgs, net, chan, log, ackq, clk, known>>
+VARIABLES cfg, msgs, net, chan, log, ackq, clk, known, paused
+vars == <<cfg, msgs, net, chan, log, ackq, clk, known, paused>>
 
 Inf == 1000000000
 
@@ -62,13 +68,18 @@ ExpOf(p, kind) ==
     [] kind = "equal"  -> known[p]
     [] kind = "future" -> known[p] + 1
     [] kind = "far"    -> known[p] + 2
+    \* negative values other than -1 are expectations like any other (only -1
+    \* waives the check): they can never be met
+    [] kind = "neg"    -> -2
+    [] kind = "negbig" -> -1000000
 
 \* PublishAsync / Publish: the API refuses ack policy NONE on a stream with
-\* concurrency control before anything is sent to NATS (api.go,
-\* ensurePublishPreconditions); the refusal is the answer.
-DoSend(p, kind, pol) ==
+\* concurrency control before anything else happens (api.go,
+\* ensurePublishPreconditions) - whatever the state of the partition; the
+\* refusal is the answer.  A publish that passes resumes a paused partition
+\* (resumeStream) and is then sent to NATS.
+SendAs(p, kind, pol, refused) ==
   LET id == Len(msgs) + 1
-      refused == cfg.occ /\ pol = "none"
       \* ack policy NONE otherwise: fire and forget, the call returns at once
       answered == pol = "none" IN
   /\ msgs' = Append(msgs, [p |-> p, exp |-> ExpOf(p, kind), pol |-> pol, sendT |-> clk,
@@ -76,13 +87,23 @@ DoSend(p, kind, pol) ==
                            res |-> IF refused THEN "bad_request" ELSE IF answered THEN "noack" ELSE "pending",
                            off |-> -1])
   /\ net' = IF refused THEN net ELSE net \cup {id}
+  /\ paused' = IF refused THEN paused ELSE FALSE
   /\ clk' = clk + 2
   /\ UNCHANGED <<cfg, chan, log, ackq, known>>
+
+DoSend(p, kind, pol) == SendAs(p, kind, pol, cfg.occ /\ pol = "none")
+
+\* PauseStream while nothing is in flight: the leader loop stops, the commit
+\* log is closed (what it holds stays)
+DoPause ==
+  /\ ~paused /\ net = {} /\ chan = <<>> /\ ackq = {}
+  /\ paused' = TRUE
+  /\ UNCHANGED <<cfg, msgs, net, chan, log, ackq, clk, known>>
 
 \* the publisher asks the server for the end of the log (partition metadata)
 DoRead(p) ==
   /\ known' = [known EXCEPT ![p] = Len(log)]
-  /\ UNCHANGED <<cfg, msgs, net, chan, log, ackq, clk>>
+  /\ UNCHANGED <<cfg, msgs, net, chan, log, ackq, clk, paused>>
 
 \* the answer reaches the publisher (acks of one publisher arrive in order)
 DoAckDeliver(id) ==
@@ -93,7 +114,7 @@ DoAckDeliver(id) ==
   /\ clk' = clk + 1
   /\ known' = [known EXCEPT ![msgs[id].p] =
                  IF msgs[id].res = "ok" /\ msgs[id].off + 1 > @ THEN msgs[id].off + 1 ELSE @]
-  /\ UNCHANGED <<cfg, net, chan, log>>
+  /\ UNCHANGED <<cfg, net, chan, log, paused>>
 
 -----------------------------------------------------------------------------
 (* Server side *)
@@ -105,7 +126,7 @@ DoArrive(id) ==
   /\ \A j \in net : msgs[j].p = msgs[id].p => id <= j
   /\ net' = net \ {id}
   /\ chan' = Append(chan, id)
-  /\ UNCHANGED <<cfg, msgs, log, ackq, clk, known>>
+  /\ UNCHANGED <<cfg, msgs, log, ackq, clk, known, paused>>
 
 \* messageProcessingLoop: with concurrency control the batch size is forced to 1
 BatchSize == IF cfg.occ THEN 1 ELSE cfg.batch
@@ -125,8 +146,12 @@ DoProcess(n) ==
      IN /\ chan' = SubSeq(chan, n + 1, Len(chan))
         /\ IF bad THEN
              /\ log' = log
-             /\ msgs' = [msgs EXCEPT ![b[1]].res = "incorrect_offset"]
-             /\ ackq' = ackq \cup {b[1]}
+             \* (ack policy NONE cannot get here on a stream with concurrency
+             \* control - the API refuses it; if it did, the publisher of the
+             \* unary RPC has already been answered and nobody reads the ack)
+             /\ msgs' = IF msgs[b[1]].pol = "none" THEN msgs
+                        ELSE [msgs EXCEPT ![b[1]].res = "incorrect_offset"]
+             /\ ackq' = IF msgs[b[1]].pol = "none" THEN ackq ELSE ackq \cup {b[1]}
            ELSE
              /\ log' = log \o Stamped(b, base)
              /\ msgs' = [id \in DOMAIN msgs |->
@@ -134,14 +159,14 @@ DoProcess(n) ==
                            THEN [msgs[id] EXCEPT !.res = "ok", !.off = base + IdxIn(b, id) - 1]
                            ELSE msgs[id]]
              /\ ackq' = ackq \cup {b[i] : i \in {j \in 1..n : msgs[b[j]].pol # "none"}}
-  /\ UNCHANGED <<cfg, net, clk, known>>
+  /\ UNCHANGED <<cfg, net, clk, known, paused>>
 
 Quiescent == net = {} /\ chan = <<>> /\ ackq = {}
 
 Init ==
-  /\ cfg \in [occ : BOOLEAN, batch : {1, 2}]
+  /\ cfg \in [occ : BOOLEAN, batch : {1, 2}, path : {"async", "sync"}]
   /\ msgs = <<>> /\ net = {} /\ chan = <<>> /\ log = <<>> /\ ackq = {}
-  /\ clk = 1 /\ known = [p \in Pubs |-> 0]
+  /\ clk = 1 /\ known = [p \in Pubs |-> 0] /\ paused = FALSE
 
 -----------------------------------------------------------------------------
 (* What C16 demands of one iteration of the leader loop (design check only:  *)
@@ -164,7 +189,8 @@ P_Process(b) ==
        IF InLog(log', b[i])
        THEN \/ msgs[b[i]].pol = "none"
             \/ msgs'[b[i]].res = "ok" /\ msgs'[b[i]].off = OffIn(log', b[i])
-       ELSE msgs'[b[i]].res = "incorrect_offset" /\ b[i] \in ackq'
+       ELSE \/ msgs[b[i]].pol = "none"
+            \/ msgs'[b[i]].res = "incorrect_offset" /\ b[i] \in ackq'
 
 -----------------------------------------------------------------------------
 (* C16 over the history: what publishers sent and got back + the log        *)
@@ -257,6 +283,9 @@ I_RejectWindow ==
 
 TypeOK ==
   /\ cfg.occ \in BOOLEAN /\ cfg.batch \in Nat
-  /\ \A id \in Ids : msgs[id].exp >= -1 /\ msgs[id].sendT < msgs[id].ackT
+  /\ \A id \in Ids : msgs[id].exp \in Int /\ msgs[id].sendT < msgs[id].ackT
   /\ net \subseteq Ids /\ ackq \subseteq Ids
+  /\ paused \in BOOLEAN
+  \* a paused partition has nothing in flight (the publish that finds it paused resumes it first)
+  /\ paused => (net = {} /\ chan = <<>>)
 =============================================================================
